@@ -143,6 +143,9 @@ def stepLine (st : St) (toks : List String) : St :=
           -- judged for soundness only: the caller restricted the families himself
           if callSoundOk (offered d) r.action o then st else badJudge st s!"callx {m} [{aliases}]: impl[{fmtObs o}] went to a service that is not an offered definer"
       | _, _ => badCorr st s!"callx {m}: no profile device or unknown method"
+  -- availability flag, subscription history, earlier failed calls: neither routing nor the counters
+  -- depend on them (the model has no such state), so these lines change nothing here
+  | "state" :: _ => st
   | ["t0", t] =>
       let t0 := t.toInt!
       { st with igd := some { tLast := t0 }, prev := ⟨t0, .none, .none, .none, .none⟩ }
